@@ -28,5 +28,17 @@ theorem asm_names_prefixed :
     (GoBT.Gen.opCodeStrings.all fun p => p.1.startsWith "OP_") = true := by
   decide +kernel
 
+/-- no ASM name starts with a hexadecimal digit and none is empty — stated on the first character so that it can be
+    used against `hexEnc` without string-prefix reasoning -/
+theorem asm_names_first_char :
+    (GoBT.Gen.opCodeStrings.all fun p => match p.1.toList with
+      | [] => false
+      | c :: _ => (hexVal c).isNone) = true := by
+  decide +kernel
+
+/-- every opcode value's name is non-empty -/
+theorem asm_names_nonempty :
+    ((List.range 256).all fun v => opName (UInt8.ofNat v) != "") = true := by
+  decide +kernel
 
 end GoBT.TableFacts
